@@ -36,8 +36,10 @@ def _scalar_value(kind, n, ival):
         return (ival, None)      # text = str(ival), compared numerically
     if kind == 'float':
         return ('%d.5' % n, '%d.5' % n)
-    if n % 2:
+    if n % 3 == 1:
         return ('na me "q%d" \\z' % n, 'na me "q%d" \\z' % n)      # needs the quoted wire form, with escapes
+    if n % 3 == 2:
+        return ('trail%d ' % n, 'trail%d ' % n)                    # white space only at the end: still needs the quoted form
     return ('name%d' % n, 'name%d' % n)
 
 
@@ -68,6 +70,8 @@ def _history(kind, ops, ival):
                 if listy:
                     newl = ['%s%d' % ({'comma': 'n', 'lines': 'notice file /f', 'ports': '91'}[kind], counter), 'second%d' % counter] if kind != 'ports' \
                         else ['91%02d' % counter, '92%02d IsolateDestAddr' % counter]
+                    if kind == 'ports' and counter % 2 == 0:
+                        newl = [0]           # "SocksPort 0": a list whose only element is falsy
                     setattr(cfg, name, list(newl))
                     intended[name] = list(newl)
                 else:
@@ -80,6 +84,8 @@ def _history(kind, ops, ival):
                 assume(listy and name not in assigned)
                 lst = cfg.__getattr__(name)
                 x = {'comma': 'e%d', 'lines': 'info file /g%d', 'ports': '93%02d'}[kind] % counter
+                if kind == 'ports' and counter % 3 == 0:
+                    x = 0                    # a falsy element among others, as an int
                 if op == 1:
                     lst.append(x)
                     intended[name].append(x)
@@ -99,8 +105,9 @@ def _history(kind, ops, ival):
                     lst[0] = x
                     intended[name][0] = x
                 else:
-                    lst.extend([x, x + 'b'])
-                    intended[name] += [x, x + 'b']
+                    x2 = '94%02d' % counter if kind == 'ports' else x + 'b'
+                    lst.extend([x, x2])
+                    intended[name] += [x, x2]
                 mark(name)
             elif op == 9:
                 # assign the tracked list object read from ANOTHER list option (aliasing between options)
